@@ -329,5 +329,70 @@ def u_refresh(root):
     return eng
 
 
+
+# ------------------------------------------------------------------ compact summary (preface of saved files): decimals handed to round()
+def u_compact(root):
+    """get_compact_representation rounds with python's round(x, d): the number it prints has d decimals.  A faithful summary needs d >= 0 for every number
+    (never rounded left of the decimal point: '2420' for 2424.29 would claim four exact digits), the value at least as fine as its uncertainty, and an uncertainty of
+    magnitude >= 1 kept to its second significant digit.  log10 is uninterpreted; int() truncates towards zero."""
+    eng = engine(root, ["kafe2/tools.py"], {}, [])
+    L10 = z3.Function("log10_of_abs", R, R)
+    eng.consts = {"np": VLib("np")}
+    eng.lib["np.abs"] = lambda e, st, a, kw, n: VNum(z3.If(a[0].real() >= 0, a[0].real(), -a[0].real()))
+    eng.lib["np.log10"] = lambda e, st, a, kw, n: VNum(L10(a[0].real()))
+    eng.lib["np.floor"] = lambda e, st, a, kw, n: VNum(z3.ToReal(z3.ToInt(a[0].real())))
+    eng.lib["np.isnan"] = lambda e, st, a, kw, n: VBool(z3.BoolVal(False))          # finite numbers (NaN marks a fixed parameter: the other branch)
+    eng.lib["int"] = lambda e, st, a, kw, n: VNum(a[0].e) if a[0].is_int else VNum(z3.If(a[0].real() >= 0, z3.ToInt(a[0].real()), -z3.ToInt(-a[0].real())))          # truncation towards zero
+    eng.lib["max"] = lambda e, st, a, kw, n: VNum(z3.If(num_pair(a[0], a[1])[0] >= num_pair(a[0], a[1])[1], num_pair(a[0], a[1])[0], num_pair(a[0], a[1])[1]))
+
+    def rnd(e, st, a, kw, n):
+        st.ghost = dict(st.ghost)
+        d = a[1].e if a[1].is_int else z3.ToInt(a[1].e)
+        st.ghost["rounded"] = st.ghost.get("rounded", ()) + ((ast.unparse(n.args[0]), a[0].real(), d),)
+        return VNum(z3.FreshReal("rounded"))
+    eng.lib["round"] = rnd
+    eng.lib["zip"] = lambda e, st, a, kw, n: VTuple([VTuple([p_.items[q_] for p_ in a]) for q_ in range(len(a[0].items))])
+    eng.lib["enumerate"] = lambda e, st, a, kw, n: VTuple([VTuple([VNum(z3.IntVal(q_)), it_]) for q_, it_ in enumerate(a[0].items)])
+    eng.lib["len"] = lambda e, st, a, kw, n: VNum(z3.IntVal(len(a[0].items))) if isinstance(a[0], VTuple) else lib.lib_len(e, st, a, kw, n)
+    tab = VExternal("tabulate", {})
+    eng.ext_results = {"tabulate": lambda e, st, a, kw: VStr("row-a\nrow-b"), "tolist": lambda e, st, a, kw: VTuple([VTuple([VNum(z3.RealVal(1)), VNum(z3.Real("rho"))]), VTuple([VNum(z3.Real("rho")), VNum(z3.RealVal(1))])])}
+    orig_import = eng.st_Import
+    eng.st_Import = lambda n, st: ([st.locals.__setitem__(al.asname or al.name, tab) for al in n.names if al.name == "tabulate"], [(st, "next", None)])[1] if any(al.name == "tabulate" for al in n.names) else orig_import(n, st)
+    vals, errs = [z3.Real("value_a"), z3.Real("value_b")], [z3.Real("error_a"), z3.Real("error_b")]
+    asym = [[z3.Real("down_a"), z3.Real("up_a")], [z3.Real("down_b"), z3.Real("up_b")]]
+    cor = VExternal("cor_mat", {})
+    cor.vattr = lambda e, st, name: VTuple([VNum(z3.IntVal(2)), VNum(z3.IntVal(2))]) if name == "shape" else None
+    for with_asym in (False, True):
+        c = Contract("@kafe2/tools.py", "get_compact_representation")
+        ab = lambda t: z3.If(t >= 0, t, -t)
+        fl = lambda t: z3.ToInt(t)          # floor
+
+        def post(vw, with_asym=with_asym):
+            if vw.flow == "raise":
+                return [("no exception", z3.BoolVal(False))]
+            out = []
+            by = {}
+            for what, x, d in vw.post.ghost.get("rounded", ()):
+                by.setdefault(what, []).append((x, d))
+            for what, lst in by.items():
+                for x, d in lst:
+                    out.append((f"round({what}, d): d >= 0 - never rounded left of the decimal point", d >= 0))
+                    if "err" in what:
+                        out.append((f"round({what}, d): an uncertainty of magnitude >= 1 keeps its second significant digit: d >= 1 - floor(log10|.|)", z3.Implies(L10(ab(x)) >= 0, d >= 1 - fl(L10(ab(x))))))
+            vd = [d for x, d in by.get("_par_val", [])]
+            ed = [d for x, d in by.get("_par_err", [])]
+            out.append(("the value is rounded at least as finely as its uncertainty", z3.And([v_ >= e_ for v_, e_ in zip(vd, ed)]) if vd and len(vd) == len(ed) else z3.BoolVal(not vd and not ed)))
+            return out
+        c.ensures.append(post)
+
+        def init(e, st, me_, with_asym=with_asym):
+            st.assume(z3.And([x != 0 for x in vals]))
+            return {"parameter_names": VTuple([VStr("a"), VStr("b")]), "parameter_values": VTuple([VNum(v) for v in vals]), "parameter_errors": VTuple([VNum(v) for v in errs]), "parameter_cor_mat": cor,
+                    "asymmetric_parameter_errors": VTuple([VTuple([VNum(v) for v in row]) for row in asym]) if with_asym else VNone()}
+        eng.verify("@kafe2/tools.py", "get_compact_representation", None, init, contract=c, tag=f"(2 parameters{', asymmetric uncertainties' if with_asym else ''})")
+    return eng
+
+
 def units(root):
-    return [Unit("ScalarFormatter.__init__ / __call__", u_scalar), Unit("rounding lemma", u_lemma), Unit("ParameterFormatter.get_formatted", u_parameter), Unit("formatters follow the fit (refresh, fixed marks)", u_refresh)]
+    return [Unit("ScalarFormatter.__init__ / __call__", u_scalar), Unit("rounding lemma", u_lemma), Unit("ParameterFormatter.get_formatted", u_parameter), Unit("formatters follow the fit (refresh, fixed marks)", u_refresh),
+            Unit("get_compact_representation: decimals of the summary table", u_compact, bounded="2 parameters (the table loop is unrolled); values, uncertainties and asymmetric uncertainties symbolic reals")]
